@@ -34,7 +34,9 @@ EXPLANATION = (
     'alphabet because they populate caches that later updates must '
     'invalidate.')
 
-LAYOUTS = {'A': ([1, 2], [2, 1]), 'B': ([2, 1], [1, 1])}
+# A and B have the same antenna totals but a different per-user split
+LAYOUTS = {'A': ([1, 2], [2, 1]), 'B': ([2, 1], [1, 2]),
+           'C': ([2, 1], [1, 1])}
 
 
 class _StubRS:
@@ -59,7 +61,7 @@ class _StubRS:
 
 def _ops(extint):
     ops = ['RA', 'RB', 'IA', 'IB', 'P1', 'P2', 'P0', 'N1', 'N0', 'W', 'rH',
-           'rB']
+           'rB', 'T']
     return ops
 
 
@@ -133,6 +135,22 @@ def _apply(ch, sh, op, mk, extint, tag):
         _ = ch.H
     elif op == 'rB':
         _ = ch.big_H
+    elif op == 'T':
+        # an intermediate transmission (its result is not inspected here; it
+        # may populate caches that later updates must invalidate)
+        Nr, Nt = sh.layout
+        if sh.W is not None and any(sh.W[k].shape[0] != Nr[k]
+                                    for k in range(K)):
+            return
+        data = np.empty(K, dtype=object)
+        for k in range(K):
+            data[k] = mk.cmat('t%d%s' % (k, tag), (Nt[k], 1))
+        if extint:
+            dext = np.empty(1, dtype=object)
+            dext[0] = mk.cmat('te%s' % tag, (1, 1))
+            ch.corrupt_data(data, dext)
+        else:
+            ch.corrupt_data(data)
     else:
         raise ValueError(op)
 
@@ -165,9 +183,10 @@ class Views(Harness):
                  CONV + ':single_matrix_to_matrix_of_matrices',
                  MISC + ':randn_c_RS')
     bounds = ('K=2; antenna layouts A=(Nr [1,2], Nt [2,1]) and B=(Nr [2,1], '
-              'Nt [1,1]); histories = initial randomize/init + up to 2 '
-              '(quick; plus all update-read-update triples) / 3 (thorough) '
-              'further operations from a 12-letter alphabet; plain and external-interference (1 source, 1 '
+              'Nt [1,2]) (same totals, different split); histories = initial randomize/init + up to 2 '
+              '(quick; plus all update-read/transmit-update triples) / 3 '
+              '(thorough) further operations from a 13-letter alphabet '
+              '(layout C = Nr [2,1], Nt [1,1] in a few extra histories); plain and external-interference (1 source, 1 '
               'antenna) channels; 1 data symbol per antenna')
     stubs = ('_RS_channel / _RS_noise -> stub whose randn returns fresh '
              'symbolic reals', 'scipy block_diag runs unmodified on object '
@@ -194,9 +213,11 @@ class Views(Harness):
                 if tier == 'quick':
                     # cache-sensitive triples: update, read (fills a cache),
                     # update -- the pattern that exposes missing invalidation
-                    upd = [o for o in ops if o[0] != 'r']
-                    seqs += [(a, r, b) for a in upd for r in ('rH', 'rB')
-                             for b in upd]
+                    upd = [o for o in ops if o[0] != 'r' and o != 'T']
+                    seqs += [(a, r, b) for a in upd
+                             for r in ('rH', 'rB', 'T') for b in upd]
+                    seqs += [('RC', ), ('P1', 'RC'), ('P1', 'IC'),
+                             ('RC', 'P1'), ('IC', 'P2', 'RA')]
                 # group histories into units of ~40
                 chunk = 40 if tier == 'quick' else 120
                 for i in range(0, len(seqs), chunk):
@@ -450,7 +471,7 @@ HARNESSES = [Views()]
 MANIFEST = dict(
     category='model_checking',
     text='Bounded model checking of the channel object as a state machine: '
-    'all operation histories up to the stated length over a 12-letter '
+    'all operation histories up to the stated length over a 13-letter '
     'alphabet (including cache-populating reads and antenna-layout changes), '
     'with symbolic matrices, path losses, noise and data; after each history '
     'every public view is proved equal (polynomial normal form with sqrt '
